@@ -389,6 +389,46 @@ def provider_replay(expr, text):
     return False, 'loads'
 
 
+# ---------------------------------------------------------------- navigation through unresolved references
+# an earlier alternative that has to cross a reference which is still unresolved
+# when the expression is first evaluated (Postponed) keeps its precedence over a
+# later alternative that matches at once
+NGRAMMAR = """
+Model: structs+=Struct %(order)s;
+Struct: 'struct' name=ID '{' vals+=Val* '}';
+Val: 'val' name=ID;
+Inst: 'inst' name=ID ':' type=[Struct];
+Use: 'use' target=[Val|FQN|%(rrel)s];
+FQN: ID('.'ID)*;
+"""
+
+
+def unresolved_navigation(flags, uses_first, registered):
+    from textx import metamodel_from_str
+    rrel = flags + 'insts.~type.vals,structs.vals'
+    order = 'uses+=Use insts+=Inst' if uses_first else 'insts+=Inst uses+=Use'
+    model_text = 'struct S { val x } struct a { val x } ' + (
+        'use a.x inst a : S' if uses_first else 'inst a : S use a.x')
+    if registered:
+        mm = metamodel_from_str((NGRAMMAR % {'order': order, 'rrel': 'XX'}).replace('|XX', ''))
+        mm.register_scope_providers({'Use.target': rrel})
+    else:
+        mm = metamodel_from_str(NGRAMMAR % {'order': order, 'rrel': rrel})
+    try:
+        m = mm.model_from_str(model_text)
+    except Exception as e:  # noqa
+        return 'load fails: %s: %s' % (type(e).__name__, str(e)[:80])
+    s_x, a_x, inst = m.structs[0].vals[0], m.structs[1].vals[0], m.insts[0]
+    tgt = m.uses[0].target
+    obj = tgt._tx_obj if 'p' in flags else tgt
+    if obj is not s_x:
+        return "'a.x' resolves to the val of struct %r, expected S.x (first alternative: inst a -> type S -> x)" % (
+            getattr(getattr(obj, 'parent', None), 'name', obj),)
+    if 'p' in flags and list(tgt._tx_path) != [inst, s_x]:
+        return 'proxy path %s, expected [inst a, val x of S]' % [getattr(o, 'name', o) for o in tgt._tx_path]
+    return None
+
+
 def main():
     import textx.scoping.rrel as R
     chk = Check(PROP, 'model_checking')
@@ -455,6 +495,18 @@ def main():
         for _, text, what in r['bad'][:1]:
             chk.violation('provider %r on %r: %s' % (r['expr'], text, what), {'provider_expr': r['expr'], 'text': text})
         chk.sample({'provider_scenario': r['expr'], 'reference_sequences': r['paths'], 'resolved_as_expected': r['ok']})
+    import itertools
+    for flags, uses_first, registered in itertools.product(('', '+p:'), (False, True), (False, True)):
+        pr = unresolved_navigation(flags, uses_first, registered)
+        paths += 1
+        if pr:
+            chk.violation('%s%s, reference %s the instance, %s: %s' % (
+                flags, 'insts.~type.vals,structs.vals', 'before' if uses_first else 'after',
+                'registered provider' if registered else 'grammar RREL', pr),
+                {'unresolved_navigation': [flags, uses_first, registered]})
+            break
+    chk.cov['bounds']['unresolved_navigation'] = ('first alternative crosses a reference resolved later / earlier, '
+                                                  "'' and '+p:', grammar RREL and registered string (8 concrete loads)")
     chk.cov['bounds']['provider_scenario'] = ('one provider object for references with split ".", "::"; every sequence of '
                                               '%d references over 3 targets' % pitems[0][1])
     chk.cov['paths_explored'] = paths
@@ -468,6 +520,9 @@ def main():
 
 
 def replay(data):
+    if 'unresolved_navigation' in data:
+        pr = unresolved_navigation(*data['unresolved_navigation'])
+        return bool(pr), pr
     if 'provider_expr' in data:
         from textx import metamodel_from_str
         from textx.scoping.rrel import create_rrel_scope_provider
